@@ -28,7 +28,7 @@ HY_TIMEOUT_BUDGET = 6  # watchdog expiries after which the run stops calling Hal
 RANK = 459.67  # only to turn a target T_r into a Fahrenheit input; the residual uses the T_r the code computes
 
 # pseudocritical points (T_pc in Rankine, p_pc in psia): the design's, methane, a heavy gas, a sour wet gas
-PCS_QUICK = [(400.0, 650.0), (343.0, 667.0), (520.0, 600.0)]
+PCS_QUICK = [(400.0, 650.0), (343.0, 667.0), (520.0, 600.0), (459.67, 622.0)]   # the last one is a pseudocritical temperature of exactly 0 F (a wet gas of gravity 1.02)
 PCS_THOROUGH = PCS_QUICK + [(372.3, 661.9), (455.1, 641.0), (410.0, 720.0), (480.0, 560.0), (357.45, 648.5)]
 
 
